@@ -92,7 +92,8 @@ def handwritten_schema():
         {"name": "ping", "type": N("Int"), "args": []}]}
     types["Mutation"] = {"kind": "OBJECT", "interfaces": [], "fields": [
         {"name": "ma", "type": N("Item"), "args": []}, {"name": "mb", "type": N("Item"), "args": []},
-        {"name": "mc", "type": NN(N("Int")), "args": []}, {"name": "ml", "type": L(NN(N("Item"))), "args": []}]}
+        {"name": "mc", "type": NN(N("Int")), "args": []}, {"name": "ml", "type": L(NN(N("Item"))), "args": []},
+        {"name": "mt", "type": N("Int"), "args": [{"name": "n", "type": NN(N("Int")), "default": ("int", 3)}]}]}
     s = {"types": types, "query": "Query", "mutation": "Mutation", "subscription": None}
     s["resolvers"] = {(t, f["name"]) for t in ("Item", "Query", "Mutation") for f in types[t]["fields"]}
     s["type_resolvers"], s["field_type_resolvers"] = set(), set()
@@ -120,6 +121,10 @@ HAND_MUTATIONS = [
     "mutation { first: ma { v } second: mb { v } ...F third: mc } fragment F on Mutation { first: ma { w } }",
     "mutation { one: ma { v } two: mb { w } ... on Mutation { one: ma { w } three: ml { v } } two: mb { v } }",
     "mutation { a: mb { v } ...G b: ma { w } ...G } fragment G on Mutation { b: ma { v } a: mb { w } c: mc }",
+    # a NULLABLE root field whose argument coercion fails at execution time (null through a nullable variable at a
+    # defaulted non-null argument): it becomes null with an error at its path, the following root fields still run
+    ("mutation ($x: Int) { first: mt(n: 1) second: mt(n: $x) third: mb { v } fourth: mt }", {"x": None}),
+    ("mutation ($x: Int) { a: mt(n: $x) b: ma { w } c: mt(n: $x) d: mc }", {"x": None}),
 ]
 
 
@@ -200,8 +205,13 @@ def main(tier_, replay=None):
         (10, 16, 60, ["first", "last", "deepest", "random", "random"])
     viol, mism, total_runs, exhaustive_cases, schedules = [], [], 0, 0, set()
     files, meta = [], []
-    for si in range(n_schemas + 1):
-        if si == 0:
+    for si in range(-1, n_schemas + 1):
+        if si == -1:
+            # heterogeneous lists of an abstract type, a field merged from unconditional and type-conditioned nodes
+            s = execgen.hand_abstract_schema()
+            cases = handwritten_cases(rng, execgen.HAND_ABSTRACT_QUERIES[:3] + execgen.HAND_ABSTRACT_QUERIES[4:6])
+            cases = cases + [dict(c, oracle_seed=rng.randrange(1 << 30)) for c in cases[:3]]
+        elif si == 0:
             s = handwritten_schema()
             cases = asyncio.run(fault_variants(s, handwritten_cases(rng, HAND_QUERIES), rng, 3 if tier_ == "quick" else 10))
         else:
@@ -227,7 +237,7 @@ def main(tier_, replay=None):
                                              % (data_key(r1["response"])[:300], r1["picks"], cfg1)]))
         step = 40
         for j in range(0, len(items), step):
-            files.append(("C08_s%d_%d_%d" % (seed, si, j), sched_cases_file(s, items[j:j + step])))
+            files.append(("C08_s%d_%s_%d" % (seed, ("h" if si < 0 else str(si)), j), sched_cases_file(s, items[j:j + step])))
             meta.append((s, items[j:j + step]))
     results = common.run_coq_many(files)
     seq_dis = []
